@@ -28,7 +28,10 @@ type Cell struct {
 	// Len: 0:0 bytes, 1:1, 2:125, 3:126 (16-bit form), 4:65536 (64-bit form), 5: 64-bit with top bit set,
 	// 6: 16-bit form announcing 5 bytes, 7: 64-bit form announcing 5 bytes (extended length
 	// field used for a short payload; enumerated for control opcodes, where any
-	// extended length field makes the frame an oversized control frame)
+	// extended length field makes the frame an oversized control frame),
+	// 8: 64-bit length 2^64-n where n is the number of payload bytes the open
+	// message has so far (2^64-1 when idle): added to the running message
+	// length it wraps around to zero
 	Len int `json:"len"`
 	// Close body class, for Op 8 with Len 0 (see closeBodies).
 	Close int `json:"close,omitempty"`
@@ -106,7 +109,7 @@ func classifyCell(c Cell) (verdict int, owes1002 bool) {
 		if c.Len >= 3 {
 			viol = true
 		}
-	} else if c.Len >= 6 {
+	} else if c.Len == 6 || c.Len == 7 {
 		unspec = true // non-minimal length encoding on a data frame
 	}
 	if (c.Op == 1 || c.Op == 2) && c.Inside {
@@ -118,7 +121,7 @@ func classifyCell(c Cell) (verdict int, owes1002 bool) {
 	if c.Mask != c.Server {
 		viol = true
 	}
-	if c.Len == 5 {
+	if c.Len == 5 || c.Len == 8 {
 		viol = true
 	}
 	if c.Op == 8 {
@@ -135,7 +138,7 @@ func classifyCell(c Cell) (verdict int, owes1002 bool) {
 	}
 	switch {
 	case viol:
-		return vViolation, c.Len != 5
+		return vViolation, c.Len != 5 && c.Len != 8
 	case unspec:
 		return vUnspecified, false
 	}
@@ -186,6 +189,14 @@ func buildCell(c Cell, verdict int) (prefix, cell, tail []wsref.Frame, ok bool) 
 		}
 	case c.Len == 5:
 		claim := uint64(1)<<63 | 5
+		f.Claim = &claim
+		f.LenForm = 64
+		f.Payload = []byte("xxxxx")
+	case c.Len == 8:
+		claim := ^uint64(0) // 2^64-1
+		if c.Inside {
+			claim = ^uint64(0) - 1 // 2^64-2: the open message has delivered 2 bytes
+		}
 		f.Claim = &claim
 		f.LenForm = 64
 		f.Payload = []byte("xxxxx")
@@ -525,8 +536,8 @@ func enumCells(yield func(Cell) bool) {
 							for _, r2 := range bools {
 								for _, r3 := range bools {
 									for _, mask := range bools {
-										for l := 0; l <= 7; l++ {
-											if l >= 6 && op < 8 {
+										for l := 0; l <= 8; l++ {
+											if (l == 6 || l == 7) && op < 8 {
 												continue // non-minimal lengths on data frames are not classified by the statement
 											}
 											c := Cell{Inside: inside, Server: server, Comp: comp, Op: byte(op), Fin: fin, R1: r1, R2: r2, R3: r3, Mask: mask, Len: l}
@@ -626,7 +637,7 @@ func genViolation(t *rapid.T, inside, server, comp bool) Cell {
 		case 7:
 			c.Mask = !c.Mask
 		case 8:
-			c.Len = 5
+			c.Len = rapid.SampledFrom([]int{5, 8}).Draw(t, "topbitkind")
 			c.Close = 0
 		default:
 			if !inside || true {
@@ -710,6 +721,21 @@ func checkC04Hist(c HistCase, o *Obs) error {
 	_, cell, tail, ok := buildCell(c.V, vViolation)
 	if !ok {
 		return nil
+	}
+	if c.V.Len == 8 {
+		// top-bit length chosen so that, added to what the open message has
+		// accumulated, the running length wraps around to exactly zero
+		acc := uint64(0)
+		if openMsg != nil {
+			for _, l := range openMsg.FrameLens[:openMsg.NFrames-1] {
+				acc += uint64(l)
+			}
+		}
+		claim := ^uint64(0) - acc + 1
+		if acc == 0 {
+			claim = ^uint64(0)
+		}
+		cell[0].Claim = &claim
 	}
 	wire = append(wire, wsref.EncodeFrames(cell)...)
 	wire = append(wire, wsref.EncodeFrames(tail)...)
